@@ -128,7 +128,7 @@ func ethHistory(withSeal bool) (string, error) {
 		ethtypes.SealCheck = false
 		defer func() { ethtypes.SealCheck = true }()
 		g := ethGenesis()
-		g.Time = uint64(w.Now.Unix()) - 100
+		g.Time = uint64(w.Now.Unix()) - 3000
 		gh := toRepoHeader(g)
 		ctx := a.Ctx()
 		must(ck.CreateClient(ctx, ethName, &ethtypes.ClientState{Header: *gh, ChainId: 1, ContractAddress: make([]byte, 20), TrustingPeriod: 1 << 30},
@@ -140,10 +140,12 @@ func ethHistory(withSeal bool) (string, error) {
 		n2 := ethChild(n0, 5, "n2", "2")
 		n3 := ethChild(n1, 5, "n3", "3")
 		n4 := ethChild(n3, 5, "n4", "4")
+		n5 := ethChild(n4, 1000, "n5", "5") // long gap: the difficulty adjustment is clamped
+		n6 := ethChild(n5, 7, "n6", "6")
 		for _, h := range []interface{ Hash() [32]byte }{} {
 			_ = h
 		}
-		for _, h := range []*ethtypes.Header{toRepoHeader(n0), toRepoHeader(n1), toRepoHeader(n2), toRepoHeader(n0), toRepoHeader(n4), toRepoHeader(n3), toRepoHeader(n4)} {
+		for _, h := range []*ethtypes.Header{toRepoHeader(n0), toRepoHeader(n1), toRepoHeader(n2), toRepoHeader(n0), toRepoHeader(n4), toRepoHeader(n3), toRepoHeader(n4), toRepoHeader(n5), toRepoHeader(n6)} {
 			msg, err := clienttypes.NewMsgUpdateClient(ethName, h, a.Relayer().Addr)
 			must(err)
 			w.Tx(a, a.Relayer(), msg)
